@@ -70,6 +70,10 @@ func (f *fileEvent) OnEvent(progress *PackageProgress) {
 	case ProgressStageFailQuit:
 		str += fmt.Sprintf(" 文件传输异常 [%v]", extension.Err)
 	case ProgressStageSuccessQuit:
+		if progress.ExtensionFields.RecentTerminalMessage == nil { // 没有收到任何报文就断开的情况
+			str += " 没有收到终端报文 不需要保存"
+			return
+		}
 		phone := progress.ExtensionFields.RecentTerminalMessage.Header.TerminalPhoneNo
 		str += fmt.Sprintf(" 文件传输成功 开始保存 保存数量[%d] 地方标准[%s]\n",
 			len(progress.Record), progress.ExtensionFields.ActiveSafetyType.String())
